@@ -6,7 +6,7 @@ props="$@"
 [ -n "$props" ] || props=$(for d in */; do [ -f "$d/model.ml" ] && echo "${d%/}"; done)
 rc=0
 for p in $props; do
-  ( cd "$p" && cp ../zconv.ml ../verdict.ml ../main.ml . && \
+  ( cd "$p" && rm -f avm && cp ../zconv.ml ../verdict.ml ../main.ml . && \
     ocamlfind ocamlopt -O3 -w -a model.mli model.ml zconv.ml verdict.ml drv.ml main.ml -o avm 2>&1 | tail -20 ; \
     rm -f zconv.ml verdict.ml main.ml; [ -x avm ] ) || { echo "build.sh: $p failed"; rc=1; }
 done
